@@ -10,34 +10,147 @@ use crate::verif::smast::{MastRun, PeerEv, SmastCase};
 pub enum H {
     /// request (non-confirm) written by the master and received by outstation `dest`
     /// `worder` = world-wide order number of the moment the master wrote it
-    Request { t: u64, worder: u64, dest: u16, seq: u8, func: u8, bytes: Vec<u8>, session: u32 },
+    Request {
+        t: u64,
+        worder: u64,
+        dest: u16,
+        seq: u8,
+        func: u8,
+        bytes: Vec<u8>,
+        session: u32,
+    },
     /// CONFIRM written by the master
-    Confirm { t: u64, worder: u64, dest: u16, seq: u8, uns: bool, session: u32 },
+    Confirm {
+        t: u64,
+        worder: u64,
+        dest: u16,
+        seq: u8,
+        uns: bool,
+        session: u32,
+    },
     /// fragment transmitted by the scripted outstation (t = time it reaches the master)
-    PeerTx { t: u64, src: u16, bytes: Vec<u8>, kind: String, valid: bool, answers: Option<u64>, session: u32 },
-    Begin { t: u64, assoc: u16, read_type: String, seq: u8, uns: bool },
-    Meas { t: u64, assoc: u16, m: RxMeas },
-    End { t: u64, assoc: u16, seq: u8 },
-    TaskStart { t: u64, assoc: u16, task: String, func: u8, seq: u8 },
-    TaskSuccess { t: u64, assoc: u16, task: String, func: u8, seq: u8 },
-    TaskFail { t: u64, assoc: u16, task: String, err: String },
-    Unsolicited { t: u64, assoc: u16, dup: bool, seq: u8 },
-    UserRequest { t: u64, assoc: u16, id: u64, what: String },
-    UserDone { t: u64, id: u64, ok: bool, outcome: String },
-    Client { t: u64, state: String },
-    Connected { t: u64, session: u32 },
-    Closed { t: u64, session: u32 },
-    LinkRx { t: u64, worder: u64, ctrl: u8, dest: u16 },
+    PeerTx {
+        t: u64,
+        src: u16,
+        bytes: Vec<u8>,
+        kind: String,
+        valid: bool,
+        answers: Option<u64>,
+        session: u32,
+    },
+    Begin {
+        t: u64,
+        assoc: u16,
+        read_type: String,
+        seq: u8,
+        uns: bool,
+    },
+    Meas {
+        t: u64,
+        assoc: u16,
+        m: RxMeas,
+    },
+    End {
+        t: u64,
+        assoc: u16,
+        seq: u8,
+    },
+    TaskStart {
+        t: u64,
+        assoc: u16,
+        task: String,
+        func: u8,
+        seq: u8,
+    },
+    TaskSuccess {
+        t: u64,
+        assoc: u16,
+        task: String,
+        func: u8,
+        seq: u8,
+    },
+    TaskFail {
+        t: u64,
+        assoc: u16,
+        task: String,
+        err: String,
+    },
+    Unsolicited {
+        t: u64,
+        assoc: u16,
+        dup: bool,
+        seq: u8,
+    },
+    UserRequest {
+        t: u64,
+        assoc: u16,
+        id: u64,
+        what: String,
+    },
+    UserDone {
+        t: u64,
+        id: u64,
+        ok: bool,
+        outcome: String,
+    },
+    Client {
+        t: u64,
+        state: String,
+    },
+    Connected {
+        t: u64,
+        session: u32,
+    },
+    Closed {
+        t: u64,
+        session: u32,
+    },
+    LinkRx {
+        t: u64,
+        worder: u64,
+        ctrl: u8,
+        dest: u16,
+    },
     /// link status reply of outstation `src` (t = time it reaches the master)
-    LinkTx { t: u64, src: u16 },
-    GetTime { t: u64, assoc: u16, value: Option<u64> },
-    Op { t: u64, index: usize },
-    Other { t: u64, assoc: u16, what: String },
+    LinkTx {
+        t: u64,
+        src: u16,
+    },
+    GetTime {
+        t: u64,
+        assoc: u16,
+        value: Option<u64>,
+    },
+    Op {
+        t: u64,
+        index: usize,
+    },
+    Other {
+        t: u64,
+        assoc: u16,
+        what: String,
+    },
     /// the master's transport reader handed this fragment to the application layer (exact processing point)
-    MasterRx { t: u64, src: u16, bytes: Vec<u8> },
+    MasterRx {
+        t: u64,
+        src: u16,
+        bytes: Vec<u8>,
+    },
     /// the master's transport reader handed a link status request / response from `src` to the application layer
-    MasterLinkRx { t: u64, src: u16, response: bool },
-    File { t: u64, id: u64, what: String, block: u32, len: usize, content_ok: bool, detail: String },
+    MasterLinkRx {
+        t: u64,
+        src: u16,
+        response: bool,
+    },
+    File {
+        t: u64,
+        id: u64,
+        what: String,
+        block: u32,
+        len: usize,
+        content_ok: bool,
+        detail: String,
+    },
 }
 
 impl H {
@@ -75,7 +188,15 @@ pub fn history(case: &SmastCase, run: &MastRun) -> Vec<(u64, H)> {
     let mut out: Vec<(u64, H)> = Vec::new();
     for ev in &run.peer_log {
         match ev {
-            PeerEv::Rx { t, order, worder, dest, bytes, session, .. } => {
+            PeerEv::Rx {
+                t,
+                order,
+                worder,
+                dest,
+                bytes,
+                session,
+                ..
+            } => {
                 if bytes.len() >= 2 && bytes[1] == refapp::FUNC_CONFIRM {
                     out.push((
                         *order,
@@ -103,7 +224,16 @@ pub fn history(case: &SmastCase, run: &MastRun) -> Vec<(u64, H)> {
                     ));
                 }
             }
-            PeerEv::Tx { t, order, src, bytes, kind, valid, answers, session } => out.push((
+            PeerEv::Tx {
+                t,
+                order,
+                src,
+                bytes,
+                kind,
+                valid,
+                answers,
+                session,
+            } => out.push((
                 *order,
                 H::PeerTx {
                     t: *t + case.latency.1,
@@ -115,44 +245,185 @@ pub fn history(case: &SmastCase, run: &MastRun) -> Vec<(u64, H)> {
                     session: *session,
                 },
             )),
-            PeerEv::LinkRx { t, order, worder, frame } => out.push((*order, H::LinkRx { t: *t, worder: *worder, ctrl: frame.ctrl, dest: frame.dest })),
-            PeerEv::LinkTx { t, order, src } => out.push((*order, H::LinkTx { t: *t + case.latency.1, src: *src })),
-            PeerEv::Connected { t, order, session } => out.push((*order, H::Connected { t: *t, session: *session })),
-            PeerEv::Closed { t, order, session } => out.push((*order, H::Closed { t: *t, session: *session })),
+            PeerEv::LinkRx {
+                t,
+                order,
+                worder,
+                frame,
+            } => out.push((
+                *order,
+                H::LinkRx {
+                    t: *t,
+                    worder: *worder,
+                    ctrl: frame.ctrl,
+                    dest: frame.dest,
+                },
+            )),
+            PeerEv::LinkTx { t, order, src } => out.push((
+                *order,
+                H::LinkTx {
+                    t: *t + case.latency.1,
+                    src: *src,
+                },
+            )),
+            PeerEv::Connected { t, order, session } => out.push((
+                *order,
+                H::Connected {
+                    t: *t,
+                    session: *session,
+                },
+            )),
+            PeerEv::Closed { t, order, session } => out.push((
+                *order,
+                H::Closed {
+                    t: *t,
+                    session: *session,
+                },
+            )),
             PeerEv::Note { .. } => {}
         }
     }
     for (t, order, ev) in &run.master_log {
         let h = match ev {
-            MEv::BeginFragment { assoc, read_type, seq, uns, .. } => H::Begin { t: *t, assoc: *assoc, read_type: read_type.clone(), seq: *seq, uns: *uns },
-            MEv::Meas { assoc, m } => H::Meas { t: *t, assoc: *assoc, m: m.clone() },
-            MEv::EndFragment { assoc, seq } => H::End { t: *t, assoc: *assoc, seq: *seq },
-            MEv::TaskStart { assoc, task, func, seq } => H::TaskStart { t: *t, assoc: *assoc, task: task.clone(), func: *func, seq: *seq },
-            MEv::TaskSuccess { assoc, task, func, seq } => H::TaskSuccess { t: *t, assoc: *assoc, task: task.clone(), func: *func, seq: *seq },
-            MEv::TaskFail { assoc, task, err } => H::TaskFail { t: *t, assoc: *assoc, task: task.clone(), err: err.clone() },
-            MEv::Unsolicited { assoc, dup, seq } => H::Unsolicited { t: *t, assoc: *assoc, dup: *dup, seq: *seq },
-            MEv::Client(s) => H::Client { t: *t, state: s.clone() },
-            MEv::GetTime { assoc, t: v } => H::GetTime { t: *t, assoc: *assoc, value: *v },
-            MEv::UserDone { id, ok, outcome } => H::UserDone { t: *t, id: *id, ok: *ok, outcome: outcome.clone() },
+            MEv::BeginFragment {
+                assoc,
+                read_type,
+                seq,
+                uns,
+                ..
+            } => H::Begin {
+                t: *t,
+                assoc: *assoc,
+                read_type: read_type.clone(),
+                seq: *seq,
+                uns: *uns,
+            },
+            MEv::Meas { assoc, m } => H::Meas {
+                t: *t,
+                assoc: *assoc,
+                m: m.clone(),
+            },
+            MEv::EndFragment { assoc, seq } => H::End {
+                t: *t,
+                assoc: *assoc,
+                seq: *seq,
+            },
+            MEv::TaskStart {
+                assoc,
+                task,
+                func,
+                seq,
+            } => H::TaskStart {
+                t: *t,
+                assoc: *assoc,
+                task: task.clone(),
+                func: *func,
+                seq: *seq,
+            },
+            MEv::TaskSuccess {
+                assoc,
+                task,
+                func,
+                seq,
+            } => H::TaskSuccess {
+                t: *t,
+                assoc: *assoc,
+                task: task.clone(),
+                func: *func,
+                seq: *seq,
+            },
+            MEv::TaskFail { assoc, task, err } => H::TaskFail {
+                t: *t,
+                assoc: *assoc,
+                task: task.clone(),
+                err: err.clone(),
+            },
+            MEv::Unsolicited { assoc, dup, seq } => H::Unsolicited {
+                t: *t,
+                assoc: *assoc,
+                dup: *dup,
+                seq: *seq,
+            },
+            MEv::Client(s) => H::Client {
+                t: *t,
+                state: s.clone(),
+            },
+            MEv::GetTime { assoc, t: v } => H::GetTime {
+                t: *t,
+                assoc: *assoc,
+                value: *v,
+            },
+            MEv::UserDone { id, ok, outcome } => H::UserDone {
+                t: *t,
+                id: *id,
+                ok: *ok,
+                outcome: outcome.clone(),
+            },
             MEv::Other { assoc, what } => {
                 if let Some(rest) = what.strip_prefix("user-request id=") {
-                    let id = rest.split_whitespace().next().and_then(|x| x.parse().ok()).unwrap_or(0);
-                    H::UserRequest { t: *t, assoc: *assoc, id, what: rest.to_string() }
+                    let id = rest
+                        .split_whitespace()
+                        .next()
+                        .and_then(|x| x.parse().ok())
+                        .unwrap_or(0);
+                    H::UserRequest {
+                        t: *t,
+                        assoc: *assoc,
+                        id,
+                        what: rest.to_string(),
+                    }
                 } else {
-                    H::Other { t: *t, assoc: *assoc, what: what.clone() }
+                    H::Other {
+                        t: *t,
+                        assoc: *assoc,
+                        what: what.clone(),
+                    }
                 }
             }
-            MEv::File { id, what, block, len, content_ok, detail } => H::File { t: *t, id: *id, what: what.clone(), block: *block, len: *len, content_ok: *content_ok, detail: detail.clone() },
-            MEv::AbsTime { assoc, t: v } => H::Other { t: *t, assoc: *assoc, what: format!("abs-time {}", v) },
+            MEv::File {
+                id,
+                what,
+                block,
+                len,
+                content_ok,
+                detail,
+            } => H::File {
+                t: *t,
+                id: *id,
+                what: what.clone(),
+                block: *block,
+                len: *len,
+                content_ok: *content_ok,
+                detail: detail.clone(),
+            },
+            MEv::AbsTime { assoc, t: v } => H::Other {
+                t: *t,
+                assoc: *assoc,
+                what: format!("abs-time {}", v),
+            },
         };
         out.push((*order, h));
     }
     for (t, order, src, bytes) in &run.master_rx {
         if bytes.len() == 2 && bytes[0] == 0xFF {
             // link-layer message (see hooks::link_message_popped)
-            out.push((*order, H::MasterLinkRx { t: *t, src: *src, response: bytes[1] == 1 }));
+            out.push((
+                *order,
+                H::MasterLinkRx {
+                    t: *t,
+                    src: *src,
+                    response: bytes[1] == 1,
+                },
+            ));
         } else {
-            out.push((*order, H::MasterRx { t: *t, src: *src, bytes: bytes.clone() }));
+            out.push((
+                *order,
+                H::MasterRx {
+                    t: *t,
+                    src: *src,
+                    bytes: bytes.clone(),
+                },
+            ));
         }
     }
     for (i, t, order) in &run.op_marks {
@@ -165,7 +436,12 @@ pub fn history(case: &SmastCase, run: &MastRun) -> Vec<(u64, H)> {
 /// numeric values carried by the measurement objects of a fragment, in wire order
 pub fn fragment_values(bytes: &[u8]) -> Option<Vec<f64>> {
     let f = refapp::decode_fragment(bytes).ok()?;
-    Some(refapp::measurements(&f).iter().filter_map(|m| m.value).collect())
+    Some(
+        refapp::measurements(&f)
+            .iter()
+            .filter_map(|m| m.value)
+            .collect(),
+    )
 }
 
 /// the history re-ordered by the time each event happened *at the master*: requests and confirms were written `latency.0` before
@@ -175,14 +451,18 @@ pub fn master_time_history(case: &SmastCase, run: &MastRun) -> Vec<(u64, H)> {
     let mut h = history(case, run);
     let key = |e: &(u64, H)| -> u64 {
         match &e.1 {
-            H::Request { t, .. } | H::Confirm { t, .. } | H::LinkRx { t, .. } => t.saturating_sub(case.latency.0),
+            H::Request { t, .. } | H::Confirm { t, .. } | H::LinkRx { t, .. } => {
+                t.saturating_sub(case.latency.0)
+            }
             other => other.t(),
         }
     };
     // what the master wrote is placed where it wrote it
     let ord = |e: &(u64, H)| -> u64 {
         match &e.1 {
-            H::Request { worder, .. } | H::Confirm { worder, .. } | H::LinkRx { worder, .. } => *worder,
+            H::Request { worder, .. } | H::Confirm { worder, .. } | H::LinkRx { worder, .. } => {
+                *worder
+            }
             _ => e.0,
         }
     };
